@@ -84,8 +84,14 @@ pub fn apply(img: &mut Vec<u8>, g: &Geom, field: &str, class: &str) {
         ("rtoff", "huge") => p64(img, 48, 1u64 << 62),
         ("rtoff", _) => p64(img, 48, 0),
         ("l1size", "zero") => p32(img, 36, 0),
+        // the byte size wraps in 32-bit arithmetic
+        ("l1size", "wrap") => p32(img, 36, (1 << 29) + 1),
         ("l1size", _) => p32(img, 36, 0xffff_ffff),
         ("rtclus", "zero") => p32(img, 56, 0),
+        // clusters << cluster_bits wraps in 32-bit arithmetic
+        ("rtclus", "wrap") => p32(img, 56, 1 << (32 - g.cb)),
+        ("rtclus", "wrap1") => p32(img, 56, (1 << (32 - g.cb)) + 1),
+        ("rtclus", "top") => p32(img, 56, 0x8000_0000),
         ("rtclus", _) => p32(img, 56, 0xffff_ffff),
         ("size", "zero") => p64(img, 24, 0),
         ("size", "huge") => p64(img, 24, 1u64 << 63),
@@ -164,6 +170,8 @@ pub fn apply(img: &mut Vec<u8>, g: &Geom, field: &str, class: &str) {
                 "beyond" => (1u64 << 63) | ((flen / cs + 7) * cs),
                 "header" => 1u64 << 63,
                 "reserved" => cur | (1 << 57) | 2,
+                // aligned, inside the 56-bit offset field, far behind what the refcount table covers
+                "uncovered" => (1u64 << 63) | (1u64 << 44),
                 _ => (1u64 << 63) | h.l1_off,
             };
             p64(img, o, v);
@@ -178,6 +186,8 @@ pub fn apply(img: &mut Vec<u8>, g: &Geom, field: &str, class: &str) {
                     "header" => 1u64 << 63,
                     "l1table" => (1u64 << 63) | h.l1_off,
                     "reserved" => cur | (1 << 58) | 4,
+                    "uncovered" => (1u64 << 63) | (1u64 << 44),
+                    "uncovtop" => (1u64 << 63) | (0x00ff_ffff_ffff_fe00u64 & !(cs - 1)),
                     "compeof" => (1u64 << 62) | (1u64 << x) | (flen + cs),
                     "comphuge" => (1u64 << 62) | (0x3fffu64 << x) & 0x3fff_ffff_ffff_ffff | (cs * 2 + 8),
                     _ => 1,
